@@ -260,6 +260,8 @@ pub fn generate(seed: u64, n: usize, _thorough: bool, _corpus: Option<&str>) -> 
     }
     // two-phase start with zero-level artificials in rows without a positive structural entry: an own stream, so that
     // the other families do not shift
+    // variable-free models: fixed block (every comparison x rhs 0 / -0 / 1 / -1, every true/false order of constant rows)
+    for lm in gen_lp::variable_free_block() { cases_for(&lm, "variable-free-block", &variants, &mut cases); }
     // textbook cycling instances: the tableau simplex (default iteration limit) must still reach a verdict
     let mut r3 = Rng::new(seed ^ 0xc7c1e);
     for (name, lm) in gen_lp::cycling_classics(&mut r3) { cases_for(&lm, name, &variants, &mut cases); }
